@@ -162,7 +162,6 @@ inductive TK where
   | pickle             -- `pickle.dumps(obj, proto)`
   | import_            -- `__import__(modname)`           (`vinegar.load`)
   | modPresent         -- `modname in sys.modules`
-  | modattr            -- `getattr(sys.modules[modname], clsname, None)`
   | builtinAttr        -- `getattr(builtins, clsname, None)`
   | buildExc           -- class check, `cls.__new__`, `args` / attribute assignment
   | truth              -- `if exc:`
@@ -1116,13 +1115,14 @@ def importGate (modname : Val) : M Unit := do
   else pure ()
 
 /-- where `vinegar.load` looks the class up: in `sys.modules[modname]` iff `instantiate_custom_exceptions`,
-else among the builtins iff `modname == "builtins"`, else nowhere -/
+else among the builtins iff `modname == "builtins"`, else nowhere.  In a module that is present the class is read out of
+the module's namespace (`vars(module).get(clsname)`: data, no code runs - in particular not a module-level
+`__getattr__`), so there is no operation to log; which class that was shows in the answer to `buildExc`. -/
 def classGate (modname clsname : Val) : M PV := do
   let cfg ← getCfg
   if cfg.instantiateCustomExc then do
-    let present ← prim { kind := .modPresent, subj := .imm modname }
-    if present.truthy then prim { kind := .modattr, subj := .imm modname, args := [.imm clsname] }
-    else pure (.imm .none)
+    let _ ← prim { kind := .modPresent, subj := .imm modname }
+    pure (.imm .none)
   else if pyEq modname (.str (cp "builtins")) then prim { kind := .builtinAttr, subj := .imm clsname }
   else pure (.imm .none)
 
